@@ -205,6 +205,12 @@ class Gen:
             for ww in (w1, w - w1):
                 kk = rs.choice(["U", "S", "BV"]) if ww > 1 else rs.choice(["Bit", "BV", "U"])
                 parts.append(self.gen(("Bit",) if kk == "Bit" else (kk, ww), d + 1))
+            if rs.below(3) == 0:
+                # one operand is a compile-time constant OBJECT (Unsigned / Signed / BitVector literal), the other stays run-time
+                j = rs.below(2)
+                ww = (w1, w - w1)[j]
+                kk = rs.choice(["U", "S", "BV"])
+                parts[j] = ["cv", (kk, ww), rs.bits(ww) - ((1 << (ww - 1)) if kk == "S" else 0)]
             return ["concat", t, parts[0], parts[1]]
         if c == "view":
             return ["view", t, self.gen((rs.choice(["U", "S"]), w), d + 1)]
